@@ -13,9 +13,9 @@ for _p in PENDING:
 
 # conjuncts of each property that no discharged obligation covers (reported in evidence)
 NOT_DECIDED = {
-    'C14': ['the ten filter_map closures of Node::iter_*identifiers* (impl Iterator + closures: outside Verus): classification into write / function / read sub-sequences',
-            'OperatorIterMut (yields &mut into a tree it keeps iterating: beyond the installed Verus) and therefore all *_mut variants and the renaming corollary',
-            'Node::iter() returns `impl Iterator`, so the NodeIter contract does not travel through it'],
+    'C14': ['the composition `SOURCE.filter_map(closure)` itself (std adapter; Node::iter() / iter_operators_mut() return `impl Iterator`, so the traversal contract does not travel through them): the traversal (NodeIter, erased OperatorIterMut) and each closure body are proved separately',
+            'OperatorIterMut is proved on its mutability-erased copy (X20); that erasing `mut` from the borrows of the tree preserves which nodes are visited, and the soundness of the mutable borrows, rest on rustc',
+            'the renaming corollary and "evaluation reports only listed names" (whole-program consequences) are not stated as obligations'],
     'C03': ['value of i64 `%` (Ok result of checked_rem is the truncated remainder): no installed SAT/SMT back end proves any fact about it within 15 min; rests on std::i64::checked_rem',
             'value of i64 `/` is proved only in the thorough tier (harness int_checked_div_value, 150-350 s); the quick tier proves the Ok/Err partition and the error payload',
             'IEEE-754 arithmetic itself (f_add .. f_pow are uninterpreted): routing, promotion and operand order are proved, the hardware operation is trusted',
@@ -68,7 +68,7 @@ META = {
     'C13': dict(engine='verus', design_ref='0, 4', technique='contract-based deductive verification (Verus): insertion contract, parenthesis accounting, arity contract',
                 text='tokens_to_operator_tree proved: Ok implies balanced parentheses, UnmatchedLBrace/UnmatchedRBrace imply unbalanced (one root node on the stack per open level); insert_back_prioritized succeeds exactly when ins_ok (a free operand slot never takes a binary operator, only a binary operator adopts the preceding operand); Operator::eval rejects wrong arity.',
                 note=_TB),
-    'C14': dict(engine='verus', design_ref='0, 4', technique='contract-based deductive verification (Verus abstract-view contract on NodeIter)',
-                text='NodeIter::new / next proved to yield exactly the remaining pre-order of the children (abstract view over the stack of slice iterators).',
-                note=_TB + ' Filter closures, OperatorIterMut (all *_mut variants) and the renaming corollary are not in reach.'),
+    'C14': dict(engine='verus', design_ref='0, 4', technique='contract-based deductive verification (Verus): abstract-view contract on NodeIter and on the mutability-erased OperatorIterMut, classification contracts on the ten filter closures',
+                text='NodeIter::new / next and the mutability-erased copy of OperatorIterMut (X20) proved to yield exactly the remaining pre-order of the children (abstract view over the stack of slice iterators); the ten filter_map closure bodies of Node::iter_*identifiers*(_mut) (X19) proved to keep exactly the documented classes (assignment target / read variable / applied function) and to yield the occurrence name.',
+                note=_TB + ' The filter_map composition and the renaming corollary are not stated as obligations.'),
 }
